@@ -317,6 +317,8 @@ func genURL(r *RNG, s *SchemaSpec) *URLSpec {
 				}
 				if r.Chance(1, 3) {
 					it = "-" + it
+				} else if r.Chance(1, 8) {
+					it = "+" + it // an explicit plus sign (written %2B in the query) is not part of a rule
 				}
 				items = append(items, it)
 			}
